@@ -20,21 +20,25 @@ package header
 //@ func Parse
 //@   nopanic
 //@   pure
-//@   let ne = int(be16(val, 22))
-//@   ensures ok_iff: iff(err == nil, len(val) >= 24 && val[16] == 0 && len(val) >= 24 + 8*ne)
+//@   let ne = hdrNE(val)
+//@   ensures ok_iff: iff(err == nil, wfHeader(val))
+//@   ensures ok_len: err == nil ==> len(val) >= 24 + 8*ne && ne >= 0 && ne <= 65535
+//@   ensures ok_iff_bytes: iff(err == nil, len(val) >= 24 && val[16] == 0 && len(val) >= 24 + 8*int(be16(val, 22)))
 //@   ensures err_kind: err != nil ==> err == ErrTooShort || err == ErrVersion
 //@   ensures too_short: len(val) < 24 ==> err == ErrTooShort
 //@   ensures bad_version: len(val) >= 24 && val[16] != 0 ==> err == ErrVersion
-//@   ensures fields: err == nil ==> uint64(header.Timestamp) == be64(val, 0) && uint64(header.TxnID) == be64(val, 8) && header.Version == 0 && uint8(header.Flags) == val[17] && header.NumExtra == ne
+//@   ensures fields: err == nil ==> uint64(header.Timestamp) == hdrTS(val) && uint64(header.TxnID) == hdrTxn(val) && header.Version == 0 && uint8(header.Flags) == hdrFlags(val) && header.NumExtra == ne
+//@   ensures fields_bytes: err == nil ==> uint64(header.Timestamp) == be64(val, 0) && uint64(header.TxnID) == be64(val, 8) && uint8(header.Flags) == val[17] && header.NumExtra == int(be16(val, 22))
 //@   ensures value_after_extensions: err == nil ==> sameSlice(value, val[24+8*ne:])
+//@   ensures value_seq: err == nil ==> seqof(value) == appSeq(val)
 //@   ensures extra: err == nil && ne > 0 ==> sameSlice(header.Extra, val[24:24+8*ne])
 //@   ensures value_nil_on_error: err != nil ==> isnil(value)
 
 //@ func Skip
 //@   nopanic
 //@   pure
-//@   let ne = int(be16(val, 22))
-//@   ensures ok_iff: iff(err == nil, len(val) >= 24 && val[16] == 0 && len(val) >= 24 + 8*ne)
+//@   let ne = hdrNE(val)
+//@   ensures ok_iff: iff(err == nil, wfHeader(val))
 //@   ensures err_kind: err != nil ==> err == ErrTooShort || err == ErrVersion
 //@   ensures same_as_Parse: err == nil ==> sameSlice(value, val[24+8*ne:])
 //@   ensures value_nil_on_error: err != nil ==> isnil(value)
